@@ -27,8 +27,36 @@ import (
 var anchorsJSON []byte
 
 type frozenTable struct {
-	Funcs []frozenFunc `json:"funcs"`
-	Types []frozenType `json:"types"`
+	Funcs   []frozenFunc   `json:"funcs"`
+	Types   []frozenType   `json:"types"`
+	Globals []frozenGlobal `json:"globals"`
+}
+
+// frozenGlobal is an unexported package-level variable and its type.
+type frozenGlobal struct {
+	Pkg  string `json:"pkg"`
+	Name string `json:"name"`
+	Type string `json:"type"`
+}
+
+// globalCanon maps a renamed package-level variable to its frozen name.
+var globalCanon = map[types.Object]string{}
+
+func moduleGlobals(p *load.Program) []*ssa.Global {
+	var out []*ssa.Global
+	for _, path := range []string{load.PkgWS, load.PkgWSUtil, load.PkgWSFlate} {
+		sp := p.SSA[path]
+		if sp == nil {
+			continue
+		}
+		for name, m := range sp.Members {
+			if g, ok := m.(*ssa.Global); ok && !ast.IsExported(name) && !strings.HasPrefix(name, "init$") {
+				out = append(out, g)
+			}
+		}
+	}
+	sort.Slice(out, func(i, j int) bool { return out[i].String() < out[j].String() })
+	return out
 }
 
 // frozenType is a named type of the module: its underlying type (with the
@@ -217,7 +245,11 @@ func FreezeAnchors(p *load.Program) ([]byte, error) {
 		}
 		tt = append(tt, e)
 	}
-	return json.MarshalIndent(frozenTable{Funcs: tab, Types: tt}, "", " ")
+	var gg []frozenGlobal
+	for _, g := range moduleGlobals(p) {
+		gg = append(gg, frozenGlobal{Pkg: g.Pkg.Pkg.Path(), Name: g.Name(), Type: canonTypeString(g.Type().(*types.Pointer).Elem())})
+	}
+	return json.MarshalIndent(frozenTable{Funcs: tab, Types: tt, Globals: gg}, "", " ")
 }
 
 // canonShort maps the table name of a renamed helper to its frozen table name.
@@ -234,6 +266,7 @@ func ResolveRenames(p *load.Program) []string {
 	tab := ft.Funcs
 	var notes []string
 	notes = append(notes, resolveTypeRenames(p, ft.Types)...)
+	notes = append(notes, resolveGlobalRenames(p, ft.Globals)...)
 	frozenName := map[string]bool{}
 	for _, e := range tab {
 		frozenName[e.Full] = true
@@ -441,6 +474,51 @@ func resolveTypeRenames(p *load.Program, frozen []frozenType) []string {
 			fieldCanon[st.Field(pick)] = f.Name
 			notes = append(notes, fmt.Sprintf("field %s.%s is analysed as %s.%s (same type; the frozen name is gone)", e.Name, st.Field(pick).Name(), e.Name, f.Name))
 		}
+	}
+	return notes
+}
+
+// resolveGlobalRenames matches frozen unexported package variables that are
+// gone with the unique new variable of the same package and type.
+func resolveGlobalRenames(p *load.Program, frozen []frozenGlobal) []string {
+	var notes []string
+	cur := moduleGlobals(p)
+	have := map[string]bool{}
+	for _, g := range cur {
+		have[g.Pkg.Pkg.Path()+"."+g.Name()] = true
+	}
+	frozenNames := map[string]bool{}
+	for _, e := range frozen {
+		frozenNames[e.Pkg+"."+e.Name] = true
+	}
+	taken := map[*ssa.Global]bool{}
+	for _, e := range frozen {
+		if have[e.Pkg+"."+e.Name] {
+			continue
+		}
+		var cands []*ssa.Global
+		for _, g := range cur {
+			full := g.Pkg.Pkg.Path() + "." + g.Name()
+			if taken[g] || frozenNames[full] || g.Pkg.Pkg.Path() != e.Pkg {
+				continue
+			}
+			if canonTypeString(g.Type().(*types.Pointer).Elem()) == e.Type {
+				cands = append(cands, g)
+			}
+		}
+		if len(cands) != 1 {
+			continue
+		}
+		g := cands[0]
+		taken[g] = true
+		if p.RenamedGlobals == nil {
+			p.RenamedGlobals = map[string]*ssa.Global{}
+		}
+		p.RenamedGlobals[e.Pkg+"."+e.Name] = g
+		if obj := g.Object(); obj != nil {
+			globalCanon[obj] = e.Name
+		}
+		notes = append(notes, fmt.Sprintf("variable %s.%s is analysed as %s.%s (same package and type; the frozen name is gone)", e.Pkg, g.Name(), e.Pkg, e.Name))
 	}
 	return notes
 }
